@@ -105,13 +105,16 @@ Definition cb_model (c : cb_case) :=
    write the build as a history of the table machine's operations, the
    pipeline case for the same table (Run/PipeRun.v); when the table carries
    callbacks, the callback case *)
-Definition c09case := (view * list (nat * nat * list N) * option pipe_case * option cb_case)%type.
+Definition c09case := (view * list (nat * nat * list N) * option pipe_case * option cb_case * option pipe_mcase)%type.
 
 Definition C09_case (c : c09case) : N :=
-  let '(v, outs, p, cb) := c in
+  let '(v, outs, p, cb, pm) := c in
   code (C09_corr v outs && match p with Some pc => pipe_corr pc | None => true end
-                        && match cb with Some cc => cb_corr cc | None => true end)
+                        && match cb with Some cc => cb_corr cc | None => true end
+                        && match pm with Some mc => pipe_mcorr mc | None => true end)
        (C09_ok outs).
 
 Definition C09_model (c : c09case) :=
-  let '(v, outs, p, cb) := c in (class_of (csv_render v), option_map pipe_model p, option_map cb_model cb).
+  let '(v, outs, p, cb, pm) := c in
+  (class_of (csv_render v), option_map pipe_model p, option_map cb_model cb,
+   option_map (fun mc => pipe_mview (fst (fst mc)) (snd (fst mc))) pm).
